@@ -312,8 +312,11 @@ Result apply_patch(File& out_file, RejectWriter& reject_writer, const std::vecto
             //  * The reversed hunk applied perfectly.
             //  * The non-reversed hunk could not be applied, but the reversed one can.
             // If either of these is true, check with the user how to handle this.
+            // NOTE: a reversed hunk without any lines of the old file (one which only removes lines, reversed) is found
+            //       wherever it says it is. That does not tell anything if the hunk itself was found as well.
+            const bool reversed_hunk_was_matched = hunk.old_file_range.number_of_lines != 0;
             auto reverse_handling = ReverseHandling::ApplyAnyway;
-            if ((reversed_location.offset == 0 && reversed_location.fuzz == 0) || (!location.is_found() && reversed_location.is_found()))
+            if ((reversed_hunk_was_matched && reversed_location.offset == 0 && reversed_location.fuzz == 0) || (!location.is_found() && reversed_location.is_found()))
                 reverse_handling = handle_probably_reversed_patch(out, options);
 
             switch (reverse_handling) {
